@@ -38,6 +38,16 @@ def one_sched_at(when):
     return f
 
 
+def task_clock_is(which):
+    """the task remembers the clock that schedules it (a routine re-schedules itself on `_clock`)"""
+    def f(c):
+        v = c.post.item.v('_clock')
+        if which == 'self':
+            return z3.BoolVal(v.k == 'ref' and v.oid == 'self')
+        return z3.BoolVal(v.k == 'class' and v.py == which)
+    return f
+
+
 def logical_now(c):
     return c.pre.main.current_tt._seconds
 
@@ -62,11 +72,13 @@ common = dict(fields=FIELDS, class_modules=CM, native=False, hooks={'getattr': h
 contract(F, 'SystemClock.sched', props=('C05', 'C10'),
          params={'cls': 'cls', 'delta': 'num', 'item': 'ref:Routine'},
          ensures=[('same-task-same-logical-time-in-rt-and-nrt',
-                   one_sched_at(lambda c: logical_now(c) + c.delta))],
+                   one_sched_at(lambda c: logical_now(c) + c.delta)),
+                  ('task-remembers-this-clock', task_clock_is('SystemClock'))],
          **common)
 contract(F, 'SystemClock.sched_abs', props=('C05', 'C10'),
          params={'cls': 'cls', 'time': 'num', 'item': 'ref:Routine'},
-         ensures=[('same-task-same-logical-time-in-rt-and-nrt', one_sched_at(lambda c: c.time))],
+         ensures=[('same-task-same-logical-time-in-rt-and-nrt', one_sched_at(lambda c: c.time)),
+                  ('task-remembers-this-clock', task_clock_is('SystemClock'))],
          **common)
 
 
@@ -79,13 +91,15 @@ contract(F, 'TempoClock.sched', props=('C05', 'C10'),
          params={'self': 'self', 'delta': 'num', 'item': 'ref:Routine'},
          requires=lambda c: z3.Bool('self.__running'),
          ensures=[('same-task-same-logical-beat-in-rt-and-nrt',
-                   one_sched_at(lambda c: tbeats(c, logical_now(c)) + c.delta))],
+                   one_sched_at(lambda c: tbeats(c, logical_now(c)) + c.delta)),
+                  ('task-remembers-this-clock', task_clock_is('self'))],
          inline=('TempoClock._calc_sched_beats', 'TempoClock.secs2beats', 'TempoClock._sched_add_nrt'),
          **common)
 contract(F, 'TempoClock.sched_abs', props=('C05', 'C10'),
          params={'self': 'self', 'beat': 'num', 'item': 'ref:Routine'},
          requires=lambda c: z3.Bool('self.__running'),
-         ensures=[('same-task-same-logical-beat-in-rt-and-nrt', one_sched_at(lambda c: c.beat))],
+         ensures=[('same-task-same-logical-beat-in-rt-and-nrt', one_sched_at(lambda c: c.beat)),
+                  ('task-remembers-this-clock', task_clock_is('self'))],
          inline=('TempoClock._sched_add_nrt',), **common)
 
 
@@ -154,7 +168,8 @@ def h_mode_app(eng, obj, name, st, node):
 contract(F, 'AppClock.sched', props=('C05', 'C10'),
          params={'cls': 'cls', 'delta': 'num', 'item': 'ref:Routine'},
          ensures=[('nrt-schedules-at-logical-time-plus-delta',
-                   one_sched_at(lambda c: logical_now(c) + c.delta))],
+                   one_sched_at(lambda c: logical_now(c) + c.delta)),
+                  ('task-remembers-this-clock', task_clock_is('AppClock'))],
          **dict(common, hooks={'getattr': h_mode_app},
                 fields=dict(FIELDS, AppClock={'_sched_lock': 'obj', '_scheduler': 'obj', '_tick_cond': 'obj'}),
                 class_modules=dict(CM, AppClock=F)))
@@ -320,3 +335,109 @@ contract(F, 'Quant.as_quant', props=('C05', 'C12'), params={'cls': 'cls', 'quant
 key = '%s::Quant.as_quant#other' % F
 REGISTRY[key] = REGISTRY.pop('%s::Quant.as_quant' % F)
 REGISTRY[key].key = key
+
+
+# ---- scheduling something that is not a task (no __awake__): it is wrapped, and the WRAPPER is what is scheduled ----
+from vf.pyvc.spec import REGISTRY
+
+
+def wrapped_and_scheduled(when, clock):
+    def f(c):
+        news = [e for e in c.trace if e[0] == 'new' and e[1] == 'Function']
+        ev = sched_events(c)
+        if len(news) != 1 or len(ev) != 1:
+            return z3.BoolVal(False)
+        made = news[0]
+        wrapper = made[3] if len(made) > 3 else None
+        args = ev[0][2]
+        ok = (len(made[2]) == 1 and made[2][0].k == 'ref' and made[2][0].oid == 'item'        # Function(item)
+              and wrapper is not None and any(a is wrapper for a in args if isinstance(a, V)))  # the wrapper is scheduled
+        if not ok:
+            return z3.BoolVal(False)
+        wc = c.st.objs.get(wrapper.oid, {}).get('_clock') if wrapper.oid else None
+        right_clock = wc is not None and ((clock == 'self' and wc.k == 'ref' and wc.oid == 'self')
+                                          or (wc.k == 'class' and wc.py == clock))
+        return z3.And(to_real(args[0]) == when(c), z3.BoolVal(bool(right_clock)))
+    return f
+
+
+def wrap_construct(eng, f, args, kwargs, st, node):
+    if f.k == 'class' and f.py == 'Function':
+        r = V('ref', cls='FnWrapper', oid='the-wrapper')
+        st.trace.append(('new', 'Function', tuple(args), r))
+        return [(st, r)]
+    return None
+
+
+for _qual, _params, _when, _clock, _extra in (
+        ('SystemClock.sched', {'cls': 'cls', 'delta': 'num', 'item': 'ref:PlainCallable'},
+         (lambda c: logical_now(c) + c.delta), 'SystemClock', {}),
+        ('SystemClock.sched_abs', {'cls': 'cls', 'time': 'num', 'item': 'ref:PlainCallable'},
+         (lambda c: c.time), 'SystemClock', {}),
+        ('TempoClock.sched', {'self': 'self', 'delta': 'num', 'item': 'ref:PlainCallable'},
+         (lambda c: tbeats(c, logical_now(c)) + c.delta), 'self',
+         dict(requires=lambda c: z3.Bool('self.__running'),
+              inline=('TempoClock._calc_sched_beats', 'TempoClock.secs2beats', 'TempoClock._sched_add_nrt'))),
+        ('TempoClock.sched_abs', {'self': 'self', 'beat': 'num', 'item': 'ref:PlainCallable'},
+         (lambda c: c.beat), 'self',
+         dict(requires=lambda c: z3.Bool('self.__running'), inline=('TempoClock._sched_add_nrt',)))):
+    _saved = REGISTRY.pop('%s::%s' % (F, _qual))
+    contract(F, _qual, props=('C05', 'C10'), params=_params,
+             ensures=[('plain-callable-wrapped;the-wrapper-scheduled-at-the-same-logical-time-and-remembers-this-clock',
+                       wrapped_and_scheduled(_when, _clock))],
+             **dict(common, fields=dict(FIELDS, PlainCallable={}, FnWrapper={'_clock': 'obj'}),
+                    hooks={'getattr': h_mode, 'construct': wrap_construct},
+                    class_modules=dict(CM, PlainCallable=F, FnWrapper=F)), **_extra)
+    _key = '%s::%s#plain-callable' % (F, _qual)
+    REGISTRY[_key] = REGISTRY.pop('%s::%s' % (F, _qual))
+    REGISTRY[_key].key = _key
+    REGISTRY['%s::%s' % (F, _qual)] = _saved
+
+
+# ---- AppClock: plain callable in non-real-time; the real-time branch hands the item to the tick scheduler and wakes it
+_saved = REGISTRY.pop('%s::AppClock.sched' % F)
+contract(F, 'AppClock.sched', props=('C05', 'C10'),
+         params={'cls': 'cls', 'delta': 'num', 'item': 'ref:PlainCallable'},
+         ensures=[('plain-callable-wrapped;the-wrapper-scheduled-at-the-same-logical-time-and-remembers-this-clock',
+                   wrapped_and_scheduled(lambda c: logical_now(c) + c.delta, 'AppClock'))],
+         **dict(common, hooks={'getattr': h_mode_app, 'construct': wrap_construct},
+                fields=dict(FIELDS, AppClock={'_sched_lock': 'obj', '_scheduler': 'obj', '_tick_cond': 'obj'},
+                            PlainCallable={}, FnWrapper={'_clock': 'obj'}),
+                class_modules=dict(CM, AppClock=F, PlainCallable=F, FnWrapper=F)))
+_key = '%s::AppClock.sched#plain-callable' % F
+REGISTRY[_key] = REGISTRY.pop('%s::AppClock.sched' % F)
+REGISTRY[_key].key = _key
+
+
+def h_mode_app_rt(eng, obj, name, st, node):
+    if obj.k == 'class' and obj.py == 'AppClock' and name == 'mode':
+        return [(st, vint(1))]           # the real-time mode
+    if obj.k == 'obj' and obj.oid == 'cls:AppClock._scheduler' and name == 'sched':
+        def sch(eng, args, kwargs, st, node):
+            st.trace.append(('tick-scheduler.sched', tuple(args)))
+            return [(st, NONE)]
+        return [(st, V('func', py=('spec', sch)))]
+    return None
+
+
+def app_rt_post(c):
+    t = c.trace
+    sch = [e for e in t if e[0] == 'tick-scheduler.sched']
+    notes = [e for e in t if e[0] == 'call' and e[2] == 'notify' and 'tick_cond' in str(e[1])]
+    ok = (len(sch) == 1 and len(sch[0][1]) == 2 and sch[0][1][0] is c._params['delta']
+          and sch[0][1][1] is c._params['item']                                  # this delta, this item
+          and len(notes) == 1 and t.index(sch[0]) < t.index(notes[0])             # THEN the tick thread is woken
+          and not sched_events(c))
+    return z3.BoolVal(bool(ok))
+
+
+contract(F, 'AppClock.sched', props=('C05', 'C10'),
+         params={'cls': 'cls', 'delta': 'num', 'item': 'ref:Routine'},
+         ensures=[('real-time:handed-to-the-tick-scheduler-once,then-the-tick-thread-is-woken', app_rt_post)],
+         **dict(common, hooks={'getattr': h_mode_app_rt},
+                fields=dict(FIELDS, AppClock={'_sched_lock': 'obj', '_scheduler': 'obj', '_tick_cond': 'obj'}),
+                class_modules=dict(CM, AppClock=F)))
+_key = '%s::AppClock.sched#real-time' % F
+REGISTRY[_key] = REGISTRY.pop('%s::AppClock.sched' % F)
+REGISTRY[_key].key = _key
+REGISTRY['%s::AppClock.sched' % F] = _saved
